@@ -226,7 +226,8 @@ def compare_stream(ctx, name, report, stricter, permissive):
     if any(n == name for n, _ in permissive):
         for k, (op, im) in enumerate(zip(o, i)):
             sd = side_dict(s[k]) if k < len(s) else {}
-            if op.startswith("fa ") and sd.get("kwsubtag") == "true" and canon(im) == "ERR":
+            if op.startswith("fa ") and sd.get("kwsubtag") == "true" and canon(im) == "ERR" and \
+                    len(set(sd.get("lens", "0/0").split("/"))) == 1:
                 report("relaxation-inconsistent",
                        "`keyword:` on subtag(...) is accepted for some pools and rejected for others "
                        "(validity must not depend on the nodes): " + im[:160], {"op": op, "impl": im})
